@@ -279,6 +279,31 @@ func subjects() []subject {
 	}
 }
 
+// setupSubjects: a Set that is not synchronized yet; every goroutine first makes
+// it so (Synchronize is documented as safe to call more than once, WithLock
+// with the same mutex likewise) and then uses it.
+func setupSubjects() []subject {
+	return []subject{
+		{"dt.Set(Synchronize by every user)", []string{"unordered", "ordered"}, func(pre string) any {
+			s := &dt.Set[int]{}
+			if pre == "ordered" {
+				s.Order()
+			}
+			return s
+		}, []op{
+			{"Synchronize+Add", func(_ context.Context, o any) { s := o.(*dt.Set[int]); s.Synchronize(); s.Add(1) }},
+			{"Synchronize+Check", func(_ context.Context, o any) { s := o.(*dt.Set[int]); s.Synchronize(); _ = s.Check(1) }},
+			{"Synchronize+Delete", func(_ context.Context, o any) { s := o.(*dt.Set[int]); s.Synchronize(); s.Delete(1) }},
+			{"Synchronize+Sort", func(_ context.Context, o any) {
+				s := o.(*dt.Set[int])
+				s.Synchronize()
+				s.SortQuick(func(a, b int) bool { return a < b })
+			}},
+			{"Synchronize+Len", func(_ context.Context, o any) { s := o.(*dt.Set[int]); s.Synchronize(); _ = s.Len() }},
+		}},
+	}
+}
+
 // brokerSubjects: one broker per back-end with one subscriber that keeps
 // receiving; the operations are the broker's public API.
 func brokerSubjects() []subject {
@@ -495,6 +520,7 @@ func build(tier string) ([]runner.Instance, time.Duration) {
 	var out []runner.Instance
 	all := append(subjects(), wrapperSubjects()...)
 	all = append(all, brokerSubjects()...)
+	all = append(all, setupSubjects()...)
 	for _, s := range all {
 		for _, pre := range s.pres {
 			for i, a := range s.ops {
